@@ -15,7 +15,8 @@ found in the directory (`marshalDynamic`).
   `MaxFilePath`, separator replacement, extension, `uniqueFileName` (first free candidate `base_<i>ext` among the names
   this dump has written).
 * a file name is usable iff it is not empty, `.` or `..`, and has no NUL byte and no path separator (Linux); an unusable
-  name makes the dump fail, as `WriteFileSafety` returns the error of `open`.  NAME_MAX is not modelled.
+  name makes the dump fail, as `WriteFileSafety` returns the error of `open`.  NAME_MAX is not modelled.  The operations
+  replace both bytes (`opsOK`), so every item name — NUL and separators included — gets a usable file name.
 Names are byte strings (Go strings; the truncation counts bytes).  Core Lean only.
 -/
 namespace MosnVerif.Model.ConfigDir
@@ -61,6 +62,7 @@ def applyOp (stamp : Bytes) (written : List Bytes) : NameOp → Bytes → Bytes
   | .replaceAll o n, f => f.flatMap (fun b => if b == o then n else [b])
   | .append s, f => f ++ s
   | .unique, f => uniq written f
+  | .mark, f => f
 
 def applyOps (stamp : Bytes) (written : List Bytes) : List NameOp → Bytes → Bytes
   | [], f => f
@@ -69,6 +71,12 @@ def applyOps (stamp : Bytes) (written : List Bytes) : List NameOp → Bytes → 
 /-- the file an item named `name` is written to, when the dump has already written `written` and the clock reads `stamp` -/
 def fileName (ops : List NameOp) (stamp : Bytes) (written : List Bytes) (name : Bytes) : Bytes :=
   applyOps stamp written ops name
+
+/-- the value of `fileName` when `delete(allFiles, fileName)` runs: the name the stale-file cleanup will keep -/
+def markAt (stamp : Bytes) (written : List Bytes) : List NameOp → Bytes → Option Bytes
+  | [], _ => none
+  | .mark :: _, f => some f
+  | op :: r, f => markAt stamp written r (applyOp stamp written op f)
 
 /-! ## the file system -/
 
@@ -86,24 +94,34 @@ def usable (n : Bytes) : Bool :=
 /-- `WriteFileSafety`: the file is replaced or created -/
 def write (d : Dir) (n : Bytes) (b : Body) : Dir := (n, b) :: d.filter (fun f => f.1 != n)
 
-/-- the item loop of `MarshalJSON`: `written` (newest first) are the names of this dump — also what
-`delete(allFiles, fileName)` has removed from the set of files found at the start; `clock i` is the reading of the clock
-when item `i` is reached -/
+/-- the item loop of `MarshalJSON`: `written` (newest first) are the names of this dump (what `uniqueFileName` consults),
+`kept` the names `delete(allFiles, fileName)` has removed from the set of files found at the start — the two differ when
+the mark is not taken on the final name; `clock i` is the reading of the clock when item `i` is reached -/
 def dumpLoop {α : Type} (ops : List NameOp) (enc : α → Json) (nameOf : α → Bytes) (clock : Nat → Bytes) :
-    Nat → List α → Dir → List Bytes → Option (Dir × List Bytes)
-  | _, [], d, written => some (d, written)
-  | i, c :: r, d, written =>
+    Nat → List α → Dir → List Bytes → List Bytes → Option (Dir × List Bytes × List Bytes)
+  | _, [], d, written, kept => some (d, written, kept)
+  | i, c :: r, d, written, kept =>
     let n := fileName ops (clock i) written (nameOf c)
-    if usable n then dumpLoop ops enc nameOf clock (i + 1) r (write d n (.doc (enc c))) (n :: written) else none
+    let kept' := (match markAt (clock i) written ops (nameOf c) with | some m => m :: kept | none => kept)
+    if usable n then dumpLoop ops enc nameOf clock (i + 1) r (write d n (.doc (enc c))) (n :: written) kept' else none
 
-/-- `MarshalJSON` in directory mode: write every item, then remove the files found at the start that were not written -/
+/-- `MarshalJSON` in directory mode: write every item, then remove the files found at the start that were not marked -/
 def marshalDynamic {α : Type} (ops : List NameOp) (enc : α → Json) (nameOf : α → Bytes) (clock : Nat → Bytes)
     (d : Dir) (cs : List α) : Option Dir :=
-  match dumpLoop ops enc nameOf clock 0 cs d [] with
+  match dumpLoop ops enc nameOf clock 0 cs d [] [] with
   | none => none
-  | some (d', written) =>
-    let stale := (d.map (·.1)).filter (fun n => !written.contains n)
+  | some (d', _, kept) =>
+    let stale := (d.map (·.1)).filter (fun n => !kept.contains n)
     some (d'.filter (fun f => !stale.contains f.1))
+
+/-- a sequence of dumps of the same items into the same directory (one clock per dump) -/
+def dumps {α : Type} (ops : List NameOp) (enc : α → Json) (nameOf : α → Bytes) (cs : List α) :
+    List (Nat → Bytes) → Dir → Option Dir
+  | [], d => some d
+  | k :: r, d =>
+    match marshalDynamic ops enc nameOf k d cs with
+    | none => none
+    | some d' => dumps ops enc nameOf cs r d'
 
 /-- lexicographic order of file names (`ioutil.ReadDir` sorts by name) -/
 def bytesLe : Bytes → Bytes → Bool
@@ -137,28 +155,34 @@ def isExt (e : Bytes) : Bool :=
   | c :: t => c == 46 && !t.isEmpty && !t.contains 46 && !t.contains 47 && !t.contains 0
   | [] => false
 
-/-- after these operations the name has no path separator (`clean` = it has none before), given that names of the
-clock have none -/
-def noSep : Bool → List NameOp → Bool
+/-- after these operations the name has no byte `b` (`clean` = it has none before), given that the readings of the
+clock have none: a `replaceAll b n` with `b ∉ n` cleans, no later operation may bring `b` back -/
+def noByte (b : UInt8) : Bool → List NameOp → Bool
   | clean, [] => clean
-  | clean, .replaceAll o n :: r => noSep ((clean || o == 47) && !n.contains 47) r
-  | clean, .append s :: r => noSep (clean && !s.contains 47) r
-  | clean, _ :: r => noSep clean r
+  | clean, .replaceAll o n :: r => noByte b ((clean || o == b) && !n.contains b) r
+  | clean, .append s :: r => noByte b (clean && !s.contains b) r
+  | clean, _ :: r => noByte b clean r
 
-/-- the operations introduce no NUL byte -/
-def noNul : List NameOp → Bool
-  | [] => true
-  | .replaceAll _ n :: r => !n.contains 0 && noNul r
-  | .append s :: r => !s.contains 0 && noNul r
-  | _ :: r => noNul r
+/-- no path separator is left -/
+abbrev noSep (clean : Bool) (ops : List NameOp) : Bool := noByte 47 clean ops
 
-/-- the operations end with `+ ext` followed by `uniqueFileName`, where `ext` is the extension the loader reads; every
-separator is replaced before; no operation introduces NUL; the separator of `uniqueFileName` is harmless -/
+/-- no NUL byte is left -/
+abbrev noNul (clean : Bool) (ops : List NameOp) : Bool := noByte 0 clean ops
+
+/-- the operations end with `+ ext` followed by `uniqueFileName` and then the in-use mark (taken on the FINAL name, and
+only there), where `ext` is the extension the loader reads; every
+separator and every NUL byte (the two bytes a Linux file name cannot contain) is replaced before, whatever the name
+holds; the separator of `uniqueFileName` is harmless -/
 def opsOK (ops : List NameOp) (readExt : Bytes) : Bool :=
   match ops.reverse with
-  | .unique :: .append e :: pre =>
-    e == readExt && isExt e && noSep false pre.reverse && noNul pre.reverse &&
+  | .mark :: .unique :: .append e :: pre =>
+    pre.all (· != .mark) && e == readExt && isExt e && noSep false pre.reverse && noNul false pre.reverse &&
       !Gen.ConfigDir.uniqueSep.contains 47 && !Gen.ConfigDir.uniqueSep.contains 0
   | _ => false
+
+/-- the clock is consulted at most by the first operation (the default for an empty name) -/
+def stampFirst : List NameOp → Bool
+  | .orStamp :: r => r.all (· != .orStamp)
+  | r => r.all (· != .orStamp)
 
 end MosnVerif.Model.ConfigDir
